@@ -961,46 +961,55 @@ func (c *FnCtx) execInstr(st *State, b *ssa.BasicBlock, in ssa.Instruction) bool
 
 // localClosure resolves the function value of a call to a closure made in the same
 // function: called directly, or through a local variable that is assigned exactly once
-// (the closure) and otherwise only loaded.
-func localClosure(v ssa.Value) *ssa.MakeClosure {
-	switch v := v.(type) {
-	case *ssa.MakeClosure:
-		return v
-	case *ssa.UnOp:
-		if v.Op != token.MUL {
-			return nil
-		}
-		a, ok := v.X.(*ssa.Alloc)
-		if !ok || a.Referrers() == nil {
-			return nil
-		}
-		var mc *ssa.MakeClosure
-		for _, r := range *a.Referrers() {
-			switch r := r.(type) {
-			case *ssa.Store:
-				m, ok := r.Val.(*ssa.MakeClosure)
-				if r.Addr != a || !ok || mc != nil {
-					return nil
-				}
-				mc = m
-			case *ssa.UnOp:
-				if r.Op != token.MUL {
-					return nil
-				}
-			case *ssa.DebugRef:
-			default:
-				return nil
+// (the closure) and otherwise only loaded. An anonymous function without captured
+// variables is a plain function value; it resolves the same way.
+func localClosure(v ssa.Value) (fn *ssa.Function, bindings []ssa.Value) {
+	asFn := func(x ssa.Value) (*ssa.Function, []ssa.Value, bool) {
+		switch x := x.(type) {
+		case *ssa.MakeClosure:
+			return x.Fn.(*ssa.Function), x.Bindings, true
+		case *ssa.Function:
+			if x.Parent() != nil {
+				return x, nil, true
 			}
 		}
-		return mc
+		return nil, nil, false
 	}
-	return nil
+	if f, b, ok := asFn(v); ok {
+		return f, b
+	}
+	u, ok := v.(*ssa.UnOp)
+	if !ok || u.Op != token.MUL {
+		return nil, nil
+	}
+	a, ok := u.X.(*ssa.Alloc)
+	if !ok || a.Referrers() == nil {
+		return nil, nil
+	}
+	for _, r := range *a.Referrers() {
+		switch r := r.(type) {
+		case *ssa.Store:
+			f, b, ok := asFn(r.Val)
+			if r.Addr != a || !ok || fn != nil {
+				return nil, nil
+			}
+			fn, bindings = f, b
+		case *ssa.UnOp:
+			if r.Op != token.MUL {
+				return nil, nil
+			}
+		case *ssa.DebugRef:
+		default:
+			return nil, nil
+		}
+	}
+	return fn, bindings
 }
 
 func callName(cc *ssa.CallCommon) string {
 	if !cc.IsInvoke() {
-		if mc := localClosure(cc.Value); mc != nil {
-			return funcKey(mc.Fn.(*ssa.Function))
+		if f, _ := localClosure(cc.Value); f != nil {
+			return funcKey(f)
 		}
 	}
 	if cc.IsInvoke() {
